@@ -70,6 +70,9 @@ def expander(pid, tier, types):
                 return []
             v = str(unlimbs(c["val"]["mag"]) * (-1 if c["val"]["neg"] else 1)) if "val" in c else str(c["n"])
             out.append(dict(id=bid, mode="prim", type=c["type"], val=v, params="", seed=seed0))
+            if pid == "C04" and c["type"] in ("int", "bits", "octets", "bool") and hash(v) % 3 == 0:
+                for j, prm in enumerate(["tagNum:3", "tagNum:3,explicit", "tagNum:31,explicit", "tagNum:16384,explicit"]):
+                    out.append(dict(id="%s.p%d" % (bid, j), mode="prim", type=c["type"], val=v, params=prm, seed=seed0))
         elif mode == "schema":
             onlys = [0] if c["present"] != "only" else list(range(0, 12))
             for i, t in enumerate(types):
@@ -82,6 +85,8 @@ def expander(pid, tier, types):
         elif mode == "shape":
             if pid == "C16" and len(c["members"]) > 1:
                 return []
+            if pid != "C04" and any(m["extra"] == "explicit" for m in c["members"]):
+                return []      # the decoder has no notion of field-level EXPLICIT: exercised on the encoder only
             out.append(dict(id=bid, mode="shape", type="shape", top=c["top"], members=c["members"], leaf=c["leaf"],
                             seed=seed0 + c["seed"], params="", n=mut))
         elif mode == "fuzz":
